@@ -1,0 +1,56 @@
+//go:build verif
+
+// Contracts for property C10 (multi-file runs), sequential part: every file is checked with the
+// project that was resolved for it and with the caches of that very project (caches are keyed by
+// the project root). Schedules and data races are outside this family. Verified by govc.
+
+package actionlint
+
+//@ func (*Project).RootDir
+//@   props C10
+//@   ensures result == p.root
+//@ func NewLocalActionsCache
+//@   props C10
+//@   ensures result != nil && result.proj == proj
+//@ func newNullLocalActionsCache
+//@   props C10
+//@   ensures result != nil && result.proj == nil
+//@ func NewLocalReusableWorkflowCache
+//@   props C10
+//@   ensures result != nil && result.proj == proj
+//@ func newNullLocalReusableWorkflowCache
+//@   props C10
+//@   ensures result != nil && result.proj == nil
+//@ func NewLocalActionsCacheFactory
+//@   props C10
+//@   ensures result != nil && result.caches != nil && (forall k: string :: !result.caches.has(k))
+//@ func NewLocalReusableWorkflowCacheFactory
+//@   props C10
+//@   ensures result != nil && result.caches != nil && (forall k: string :: !result.caches.has(k))
+
+// the cache handed out for a project belongs to a project with the same root
+//@ func (*LocalActionsCacheFactory).GetCache
+//@   props C10
+//@   anchor
+//@   requires forall k: string :: f.caches.has(k) ==> f.caches[k] != nil && f.caches[k].proj != nil && f.caches[k].proj.root == k
+//@   ensures forall k: string :: f.caches.has(k) ==> f.caches[k] != nil && f.caches[k].proj != nil && f.caches[k].proj.root == k
+//@   ensures result != nil && (p == nil ==> result.proj == nil) && (p != nil ==> result.proj != nil && result.proj.root == p.root)
+//@ func (*LocalReusableWorkflowCacheFactory).GetCache
+//@   props C10
+//@   anchor
+//@   requires forall k: string :: f.caches.has(k) ==> f.caches[k] != nil && f.caches[k].proj != nil && f.caches[k].proj.root == k
+//@   ensures forall k: string :: f.caches.has(k) ==> f.caches[k] != nil && f.caches[k].proj != nil && f.caches[k].proj.root == k
+//@   ensures result != nil && (p == nil ==> result.proj == nil) && (p != nil ==> result.proj != nil && result.proj.root == p.root)
+
+// LintFiles: the goroutine of a file checks it with the file's project and that project's caches
+//@ func (*Linter).LintFiles
+//@   props C10
+//@   anchor
+//@   loop "range ws":
+//@     invariant forall k: string :: acf.caches.has(k) ==> acf.caches[k] != nil && acf.caches[k].proj != nil && acf.caches[k].proj.root == k
+//@     invariant forall k: string :: rwcf.caches.has(k) ==> rwcf.caches[k] != nil && rwcf.caches[k].proj != nil && rwcf.caches[k].proj.root == k
+//@ func (*Linter).LintFiles$1
+//@   props C10
+//@   anchor
+//@   requires ac != nil && rwc != nil && (proj == nil ==> ac.proj == nil && rwc.proj == nil) && (proj != nil ==> ac.proj != nil && ac.proj.root == proj.root && rwc.proj != nil && rwc.proj.root == proj.root)
+//@   at_call (*Linter).check: (project == nil ==> localActions.proj == nil && localReusableWorkflows.proj == nil) && (project != nil ==> localActions.proj != nil && localActions.proj.root == project.root && localReusableWorkflows.proj != nil && localReusableWorkflows.proj.root == project.root)
